@@ -670,6 +670,24 @@ def consumer_mutates(rec, mode):
             rec.clear()
 
 
+STREAM_KINDS = ('sim', 'bytesio', 'buffered', 'minimal', 'gzip', 'mmap',
+                'spooled')
+
+
+class MinimalStream(object):
+    """A hand-written wrapper that offers what the reader documents it
+    needs and nothing else: read() and seek()."""
+
+    def __init__(self, h):
+        self._h = h
+
+    def read(self, n=-1):
+        return self._h.read(n)
+
+    def seek(self, off, whence=0):
+        return self._h.seek(off, whence)
+
+
 def open_stream(world, kind, data, actor, buf=None, cap=None,
                 read_error_at=None, prefix=0, extras=None):
     """prefix: index into PREFIXES - bytes that precede the DiffX data in
@@ -678,6 +696,28 @@ def open_stream(world, kind, data, actor, buf=None, cap=None,
     response header): the reader reads from the current position."""
     pre = PREFIXES[prefix % len(PREFIXES)] if isinstance(prefix, int) else b''
     data = pre + data
+
+    if kind == 'gzip' and len(data) <= 30000:
+        # a real gzip.GzipFile over the compressed bytes (seeks backwards
+        # by rewinding and reading again)
+        import gzip
+        st = gzip.GzipFile(fileobj=io.BytesIO(gzip.compress(data, 1)))
+        st.seek(len(pre))
+        return st, None
+    elif kind == 'mmap' and data:
+        import mmap
+        st = mmap.mmap(-1, len(data))
+        st.write(data)
+        st.seek(len(pre))
+        return st, None
+    elif kind == 'spooled':
+        import tempfile
+        st = tempfile.SpooledTemporaryFile(max_size=1 << 40)
+        st.write(data)
+        st.seek(len(pre))
+        return st, None
+    elif kind in ('gzip', 'mmap'):
+        kind = 'bytesio'
 
     if kind == 'bytesio':
         st = io.BytesIO(data)
@@ -700,6 +740,10 @@ def open_stream(world, kind, data, actor, buf=None, cap=None,
                                     x.get('short_at') or ()
                                     if isinstance(b, int)])
         h.pos = len(pre)
+
+        if kind == 'minimal':
+            return MinimalStream(h), h
+
         return h, h
 
 
